@@ -143,6 +143,7 @@ def predOf (c : Cfg) (name : String) (s : State) : Bool :=
   | "badout" => badOut c s
   | "consviol" => consViol c s
   | "final" => terminated c s
+  | "partialviol" => decide (unordSize s > unordCapOf c + staleCount s)
   | _ => false
 
 structure Stats where
